@@ -807,8 +807,9 @@ def main():
     import translate_mask
     import translate_shift
     import translate_toarray
+    import translate_append
     failed = {}
-    ERR = (Unsupported, translate_pyx.Unsupported, translate_walk.Unsupported, translate_eq.Unsupported, translate_indx.Unsupported, translate_strides.Unsupported, translate_missing.Unsupported, translate_driver.Unsupported, translate_diff.Unsupported, translate_validate.Unsupported, translate_common.Unsupported, translate_slices.Unsupported, translate_mask.Unsupported, translate_shift.Unsupported, translate_toarray.Unsupported,
+    ERR = (Unsupported, translate_pyx.Unsupported, translate_walk.Unsupported, translate_eq.Unsupported, translate_indx.Unsupported, translate_strides.Unsupported, translate_missing.Unsupported, translate_driver.Unsupported, translate_diff.Unsupported, translate_validate.Unsupported, translate_common.Unsupported, translate_slices.Unsupported, translate_mask.Unsupported, translate_shift.Unsupported, translate_toarray.Unsupported, translate_append.Unsupported,
            StopIteration, SyntaxError, KeyError, IndexError, AttributeError)
 
     def piece(name, path, gen, stub_import=None):
@@ -842,6 +843,7 @@ def main():
     piece("common_rowids", "MaskGen.lean", lambda: translate_mask.generate(rd("iindexes.py")), "CatiiModel.IIndex")
     piece("shift_to", "ShiftGen.lean", lambda: translate_shift.generate(rd("iindexes.py")), "CatiiModel.IIndex")
     piece("to_array", "ToArrayGen.lean", lambda: translate_toarray.generate(rd("iindexes.py")), "CatiiModel.IIndex")
+    piece("append", "AppendGen.lean", lambda: translate_append.generate(rd("iindexes.py")), "CatiiModel.IIndex")
     return 3 if failed else 0
 
 
